@@ -19,6 +19,7 @@ import (
 	"strings"
 	"testing"
 
+	"filippo.io/sunlight"
 	"filippo.io/sunlight/internal/verifmc"
 )
 
@@ -173,6 +174,14 @@ func c08Singles(st *c08State, thorough bool) []c08Tamper {
 				out = append(out, c08Tamper{Key: k, Kind: "dyn-after", Arg: pos, Mask: 0x01}, c08Tamper{Key: k, Kind: "dyn-until", Arg: pos, Mask: 0x01})
 			}
 		}
+		if strings.HasPrefix(k, "tile/data/") || strings.HasPrefix(k, "tile/names/") {
+			// structure-aware tampering of compressed tiles: the change is made in the
+			// decompressed content and the object is compressed again, so that it gets
+			// past the gzip checksum and is judged by the hash comparison
+			for _, c := range []string{"gz-flip-first", "gz-flip-middle", "gz-flip-last", "gz-append-junk", "gz-append-entry", "gz-dup-entry", "gz-swap-entries", "gz-drop-last", "gz-empty"} {
+				out = append(out, c08Tamper{Key: k, Kind: "craft", From: c})
+			}
+		}
 		if strings.HasPrefix(k, "staging/") {
 			for _, c := range []string{"garbage-tiles", "smuggle-checkpoint", "smuggle-foreign-key", "extra-leaf"} {
 				out = append(out, c08Tamper{Key: k, Kind: "craft", From: c})
@@ -203,8 +212,82 @@ func c08Coarse(st *c08State) []c08Tamper {
 	return out
 }
 
+// c08CraftTile changes the decompressed content of a data or names tile.
+func c08CraftTile(orig []byte, key, name string) []byte {
+	raw, err := gunzip(orig)
+	if err != nil {
+		panic(verifmc.EngineError{Msg: "c08 craft tile: " + err.Error()})
+	}
+	// split into records: tile leaves for data tiles, lines for names tiles
+	var recs [][]byte
+	if strings.HasPrefix(key, "tile/data/") {
+		for b := raw; len(b) > 0; {
+			_, rest, err := sunlight.ReadTileLeaf(b)
+			if err != nil {
+				panic(verifmc.EngineError{Msg: "c08 craft tile: " + err.Error()})
+			}
+			recs = append(recs, b[:len(b)-len(rest)])
+			b = rest
+		}
+	} else {
+		for _, l := range bytes.SplitAfter(raw, []byte("\n")) {
+			if len(l) > 0 {
+				recs = append(recs, l)
+			}
+		}
+	}
+	out := bytes.Clone(raw)
+	join := func(rs [][]byte) []byte { return bytes.Join(rs, nil) }
+	switch name {
+	case "gz-flip-first":
+		if len(out) > 0 {
+			out[0] ^= 1
+		}
+	case "gz-flip-middle":
+		if len(out) > 0 {
+			out[len(out)/2] ^= 1
+		}
+	case "gz-flip-last":
+		if len(out) > 0 {
+			out[len(out)-1] ^= 1
+		}
+	case "gz-append-junk":
+		out = append(out, []byte("junk after the last entry")...)
+	case "gz-append-entry":
+		if len(recs) > 0 {
+			out = append(out, recs[len(recs)-1]...)
+		}
+	case "gz-dup-entry":
+		if len(recs) >= 2 {
+			rs := append([][]byte{}, recs...)
+			rs[len(rs)-1] = rs[len(rs)-2]
+			out = join(rs)
+		}
+	case "gz-swap-entries":
+		if len(recs) >= 2 {
+			rs := append([][]byte{}, recs...)
+			rs[len(rs)-1], rs[len(rs)-2] = rs[len(rs)-2], rs[len(rs)-1]
+			out = join(rs)
+		}
+	case "gz-drop-last":
+		if len(recs) > 0 {
+			out = join(recs[:len(recs)-1])
+		}
+	case "gz-empty":
+		out = nil
+	}
+	if bytes.Equal(out, raw) {
+		return nil
+	}
+	z, _ := compress(out)
+	return z
+}
+
 func c08Craft(st *c08State, key, name string) []byte {
 	orig, _ := st.base.store.Get(key)
+	if strings.HasPrefix(name, "gz-") {
+		return c08CraftTile(orig, key, name)
+	}
 	tarBytes, err := gunzip(orig)
 	if err != nil {
 		panic(verifmc.EngineError{Msg: "c08 craft: " + err.Error()})
@@ -280,7 +363,11 @@ func c08Apply(st *c08State, w *world, t c08Tamper) bool {
 		}
 		w.store.Set(t.Key, st.versions[t.Key][t.Arg])
 	case "craft":
-		w.store.Set(t.Key, c08Craft(st, t.Key, t.From))
+		nv := c08Craft(st, t.Key, t.From)
+		if nv == nil {
+			return false // not applicable to this object (e.g. a single entry cannot be swapped)
+		}
+		w.store.Set(t.Key, nv)
 	case "dyn-after":
 		if t.Arg >= len(v) {
 			return false
@@ -477,7 +564,11 @@ func TestVerifC08(t *testing.T) {
 		}
 		kinds := []string{}
 		for _, t := range ts {
-			kinds = append(kinds, c08ObjKind(t.Key)+":"+t.Kind)
+			kind := t.Kind
+			if kind == "craft" {
+				kind += "/" + t.From
+			}
+			kinds = append(kinds, c08ObjKind(t.Key)+":"+kind)
 		}
 		sort.Strings(kinds)
 		rp.Eval(strings.SplitN(st.name, "/", 2)[0] + "|" + strings.Join(kinds, "+") + "|" + outcome)
